@@ -10,7 +10,7 @@
    else its own);  evaluated_ind o g i  is i with fitness objective_value o g and graph g.
    evaluate_with_cache = MultiprocessingDispatcher.dispatch(...)(pop),
    sequential_evaluate = SequentialDispatcher.dispatch(...)(pop); both return (result, event log).
-   Hypothesis everywhere: the not-yet-evaluated individuals have pairwise distinct uids. *)
+   Assumed everywhere: the not-yet-evaluated individuals have pairwise distinct uids. *)
 From Coq Require Import List Bool Arith QArith Permutation.
 From GolemV Require Import Evo.Evaluation Evo.EvaluationProofs.
 Import ListNotations.
@@ -253,6 +253,58 @@ Theorem C05_same_assignment_reflects : forall a b,
 Proof. exact same_assignment_b_iff. Qed.
 Print Assumptions C05_same_assignment_reflects.
 
+(* the clauses of the executable property (holds_b = conjunction of these inside the quantifier)
+   decide the propositions they stand for *)
+Theorem C05_clause_sound_reflects : forall c ob,
+  clause_sound c ob = true <->
+  forall x, In x (o_out ob) ->
+    valid (fitness x) = true /\
+    (In x (preevaluated c) \/
+     exists i, In i (unevaluated c) /\ uid i = uid x /\
+               fitness x = spec_fit (case_objective c) (geff_of ob i)).
+Proof. exact clause_sound_iff. Qed.
+Print Assumptions C05_clause_sound_reflects.
+
+Theorem C05_clause_passthrough_reflects : forall c ob,
+  clause_passthrough c ob = true <-> forall i, In i (preevaluated c) -> In i (o_out ob).
+Proof. exact clause_passthrough_iff. Qed.
+Print Assumptions C05_clause_passthrough_reflects.
+
+Theorem C05_clause_no_reevaluation_reflects : forall c ob,
+  clause_no_reevaluation c ob = true <->
+  forall g, In g (metric_graphs (o_log ob)) -> exists i, In i (unevaluated c) /\ geff_of ob i = g.
+Proof. exact clause_no_reevaluation_iff. Qed.
+Print Assumptions C05_clause_no_reevaluation_reflects.
+
+Theorem C05_clause_left_out_reflects : forall c ob,
+  clause_left_out c ob = true <->
+  forall i, In i (unevaluated c) -> valid (spec_fit (case_objective c) (geff_of ob i)) = false ->
+            ~ exists x, In x (o_out ob) /\ uid x = uid i.
+Proof. exact clause_left_out_iff. Qed.
+Print Assumptions C05_clause_left_out_reflects.
+
+Theorem C05_clause_callback_reflects : forall ob,
+  clause_callback ob = true <-> Permutation (callback_graphs (o_log ob)) (metric0_graphs (o_log ob)).
+Proof. exact clause_callback_iff. Qed.
+Print Assumptions C05_clause_callback_reflects.
+
+(* ---- the executable property is a theorem of the model: for every case inside the quantifier
+   (distinct uids among the not-yet-evaluated, shared with no pre-evaluated one), with at least one
+   metric, the oracle holds_b accepts what the model does - for both dispatchers, every objective
+   table, time-limit pattern and delegate.  labels_ok says that looking the delegate's answer up by
+   graph label (as the oracle does) finds the graph computed for the individual; it holds without
+   delegate, for the sequential dispatcher, and whenever labels and uids are pairwise distinct. *)
+Theorem C05_oracle_accepts_model : forall c,
+  in_scope c = true -> c_nmetrics c <> 0 -> labels_ok c -> holds_b c (model_observed c) = true.
+Proof. exact oracle_accepts_model. Qed.
+Print Assumptions C05_oracle_accepts_model.
+
+Theorem C05_labels_ok_sufficient : forall c,
+  c_par c = false \/ c_delegate c = None \/ (NoDup (map gr (c_pop c)) /\ NoDup (map uid (c_pop c))) ->
+  labels_ok c.
+Proof. exact labels_ok_sufficient. Qed.
+Print Assumptions C05_labels_ok_sufficient.
+
 (* ---- non-vacuity: the hypotheses are met by a non-trivial state, and the conclusions are
    non-trivial there.  Population (input order): a not-yet-evaluated individual whose graph is
    fine, one whose metric raises, a pre-evaluated individual given twice, one returning NaN, one
@@ -294,3 +346,22 @@ Example expired_example :
      [EvMetric 0 4; EvCallback 4; EvMetric 0 5; EvCallback 5]) /\
   fst (sequential_evaluate o (fun _ => true) pop) = Ok [].
 Proof. unfold main_pass_empty. vm_compute. repeat split. Qed.
+
+(* a case with an enabled delegate that satisfies the hypotheses of C05_oracle_accepts_model *)
+Example oracle_hypotheses_satisfiable :
+  let c := {| c_par := true; c_ordered := true;
+              c_pop := [ {| uid := 0; fitness := Null; gr := 0 |}; {| uid := 1; fitness := Null; gr := 1 |};
+                         {| uid := 2; fitness := FSingle [1 # 2]; gr := 2 |};
+                         {| uid := 3; fitness := Null; gr := 3 |} ];
+              c_tbl := [ (103, [MVal 1]); (122, [MVal 5]); (141, [MNaN]); (160, [MVal (3 # 4)]) ];
+              c_nmetrics := 1; c_multi := false; c_timer := [true]; c_timer_rest := false;
+              c_delegate := Some {| d_add := 100; d_mul := 20; d_drop := 0 |} |} in
+  in_scope c = true /\ c_nmetrics c <> 0 /\
+  (NoDup (map gr (c_pop c)) /\ NoDup (map uid (c_pop c))) /\
+  o_out (model_observed c) = [ {| uid := 0; fitness := FSingle [3 # 4]; gr := 160 |};
+                               {| uid := 2; fitness := FSingle [1 # 2]; gr := 2 |} ] /\
+  holds_b c (model_observed c) = true.
+Proof.
+  cbv zeta. split; [vm_compute; reflexivity|]. split; [simpl; discriminate|]. split; [|split; vm_compute; reflexivity].
+  split; vm_compute; repeat constructor; simpl; intuition discriminate.
+Qed.
